@@ -40,6 +40,12 @@ CLAIMED["C06"] = dict(
     note="(b) assumes the listed exception sets of the C decoders; MemoryError and decoder crashes are outside.",
 )
 
+CLAIMED["C05"] = dict(
+    text="Bounded symbolic execution of the real DatagramProtocol, the one-shot interface derived from incremental serializers, and the sync + async datagram endpoints over an in-memory datagram FIFO: a datagram of N symbolic bytes is accepted iff it is exactly one complete frame; in a solver-chosen sequence of sent packets (symbolic contents) and injected arbitrary datagrams every position yields what a fresh endpoint yields for that datagram alone, sent packets come back equal, one transport.send per send_packet (empty payloads included) and one recv per recv_packet.",
+    design="4/C05",
+    technique="symbolic execution of real code (CrossHair+z3): symbolic datagram bytes and packet contents, differential against a fresh protocol object",
+)
+
 NOT_APPLICABLE = {
     "C08": "TLS byte-transparency/encryption is decided inside OpenSSL's record layer (C code, cryptography): it cannot be executed symbolically by any installed engine; stubbing it would verify the stub, and running real OpenSSL realises every symbolic size (degenerates to concrete enumeration). See DESIGN.md section 5.",
     "C09": "Whether a cut at a byte offset of a real ciphertext stream yields SSLEOFError / SSLZeroReturnError / a protocol error is OpenSSL's partial-record parsing, not encodable; the EasyNetwork part is a three-way exception mapping. See DESIGN.md section 5.",
